@@ -36,7 +36,7 @@ def run(chk):
     def deeper(c, tb):
         if "n" not in memo: memo["n"] = _deeper(c, tb)
         return memo["n"]
-    km = vcheck.known_by_hyp(chk, {"NoNewBinderOnCycle": "D101b"})
+    km = vcheck.known_by_hyp(chk, {"NoNewBinderOnCycle": "D101b", "NoMemberReorder": "D108"})
     stats.append(vcheck.corr_pass(chk, "h256", vcheck.corpus_lines("C13"), "runtype-pairs(corpus)", engine="js", oracle_filter=c13_only, nontrivial=differs, search=deeper, known_matcher=km))
     lines = chk.gen_js("h256", chk.seed, 4000 if quick else 40000)
     stats.append(vcheck.corr_pass(chk, "h256", lines, "runtype-pairs", engine="js", oracle_filter=c13_only, nontrivial=differs, search=deeper, known_matcher=km))
